@@ -413,6 +413,29 @@ def prefixes(n, classes="&=+o"):
     return ["".join(p) for p in itertools.product(classes, repeat=n)]
 
 
+ACC_HEADS = ["", "_", "__", "a", "_a", "a_", "__a_"]
+
+
+def make_accessors(view):
+    def q(i: int, o: int):
+        assume(0 <= i < len(ACC_HEADS))
+        assume(97 <= o <= 122 or 48 <= o <= 57 or o == 95)
+        k = ACC_HEADS[i] + chr(o)               # (a dict hashes its keys: the character is realised value by value)
+        assume(not (k.startswith("__") and k.endswith("__")))      # dunder names are real attributes by design
+        assume(k != "x")
+        text = k + "=v1&x=2&" + k + "=v3"
+        d = observe(Request, view, text)
+        want = ["v1", "v3"]
+        got = {"item": d[k], "get": d.get(k), "attr": getattr(d, k), "in": k in d, "iter": [x for x in d if x == k],
+               "x": (d["x"], d.x, d.get("x"))}
+        exp = {"item": want, "get": want, "attr": want, "in": True, "iter": [k], "x": ("2", "2", "2")}
+        if got != exp:
+            return "%s for %r: %r, expected %r" % (name(view), text, got, exp)
+        cover("underscore" if k.startswith("_") else "plain")
+        return None
+    return q
+
+
 SHORT_BODY = "a=1&b=%41+c&a=&a=2%2B&c"
 SHORT_PAIRS = [("a", "1"), ("b", "A c"), ("a", ""), ("a", "2+"), ("c", "")]
 SHORT_THRESHOLDS = [1, 4, 1000]
@@ -569,6 +592,12 @@ def queries(tier):
                  "server's first read() returns only v bytes, every v in 1..len, max_memfile_size from %r (solver index); "
                  "forms and params must list the pairs of the whole body" % (SHORT_BODY, SHORT_THRESHOLDS),
                  timeout=200, expect_cover=["ok"], family="short-read"))
+    # the other documented accessors of the same containers: attribute style, get(), in, iteration
+    for view in ("query", "forms"):
+        out.append(Q("accessors/%s" % view, make_accessors(view), "%s of 'K=v1&x=2&K=v3' with the key K = one of %r + one symbolic character from "
+                     "[a-z0-9_] (not a dunder name): attribute access, get(), membership, iteration and item access agree "
+                     "with what was sent" % (name(view), ACC_HEADS),
+                     timeout=200 if not T else 600, expect_cover=["underscore", "plain"], family="accessors"))
     return out
 
 
